@@ -4,6 +4,7 @@
   Model: `Model/GroupSys.lean`.
 -/
 import PintModel.Model.GroupSys
+import PintModel.Proofs.RuleInversion
 import PintModel.Gen.DefaultRegistry
 
 namespace Pint.Props.C14
@@ -143,5 +144,31 @@ example : (GS.systemAttr Gen.defaultRegistry "imperial" "pint").toOption = some 
     ∧ (GS.systemAttr Gen.defaultRegistry "imperial" "floz").toOption = some "imperial_fluid_ounce"
     ∧ (GS.systemAttr Gen.defaultRegistry "US" "meter").toOption = some "meter" := by decide +kernel
 
+
+/-! ### system rules: what is written for a replaced root unit expands back to that unit -/
+
+/-- long form `new : old`: the expression `systemRule` writes for `old` (the new unit to the power 1/a and the other
+    root units of its expansion to the powers -e/a) has, root unit by root unit, exactly the exponents of `old`.
+    (The code of the pinned commit wrote -1/e: finding F37, repaired; with that formula this statement is false for
+    `g_0 : meter`.) -/
+theorem C14_rule_inversion_sound {R : Registry} {new old o : String} {repl : UC}
+    (h : GS.systemRule R (new, some old) = .ok (o, repl)) :
+    ∃ exp, R.getRootUnitsOnly [(new, 1)] = .ok exp ∧ o = old ∧
+      ((exp.map (·.1)).Nodup → exp.get old ≠ 0 → new ∉ exp.map (·.1) →
+        ∀ k, GS.expoIn repl new exp k = if k = old then 1 else 0) := by
+  obtain ⟨exp, he, ho, hr, _⟩ := GS.systemRule_long h
+  exact ⟨exp, he, ho, fun hn ha hnew k => by rw [hr]; exact GS.invertLong_sound exp new old hn ha hnew k⟩
+
+/-- short form `new`: the new unit is a power of one root unit, which is written as the inverse power of the new unit -/
+theorem C14_rule_short_sound {R : Registry} {new o : String} {repl : UC}
+    (h : GS.systemRule R (new, none) = .ok (o, repl)) (hne : new ≠ o) :
+    ∃ value, R.getRootUnitsOnly [(new, 1)] = .ok [(o, value)] ∧
+      ∀ k, GS.expoIn repl new [(o, value)] k = if k = o then 1 else 0 := by
+  obtain ⟨value, he, hv, hr⟩ := GS.systemRule_short h
+  exact ⟨value, he, fun k => by rw [hr]; exact GS.invertShort_sound new o value hv hne k⟩
+
+/-- non-vacuity on the bundled registry: `g_0 : meter` gives meter = g_0 * second ** 2 -/
+example : (GS.systemRule Gen.defaultRegistry ("standard_gravity", some "meter")).toOption
+    = some ("meter", [("second", 2), ("standard_gravity", 1)]) := by decide +kernel
 
 end Pint.Props.C14
